@@ -2,6 +2,7 @@ package zap
 
 import (
 	"bytes"
+	"encoding/binary"
 	"fmt"
 
 	index "github.com/blevesearch/bleve_index_api"
@@ -11,6 +12,7 @@ import (
 func init() {
 	vRegister("K9_copystored", K9_copystored)
 	vRegister("H06_enum", H06_enum)
+	vRegister("K10_dvoffsets", K10_dvoffsets)
 }
 
 // K9_copystored: the byte-copy path of the stored-field merge: the block range of a segment is copied as a
@@ -120,3 +122,23 @@ func H06_enum() {
 }
 
 var _ index.Document
+
+// K10_dvoffsets: the doc-value offset pair at the head of a field's section, as read by the opened-file
+// loader (getSectionDvOffsets) and by the in-memory loader's rule (two uvarints), for all 64-bit values:
+// both offsets come back as written, whatever their first byte is; a field without a section reports
+// "not uninverted".
+func K10_dvoffsets() {
+	a, b := vU64("start"), vU64("end")
+	buf := make([]byte, 1+2*binary.MaxVarintLen64+binary.MaxVarintLen64)
+	n := binary.PutUvarint(buf[1:], a)
+	binary.PutUvarint(buf[1+n:], b)
+	s := &Segment{}
+	s.mem = buf
+	s.fieldsSectionsMap = []map[uint16]uint64{{SectionInvertedTextIndex: 1}, {SectionInvertedTextIndex: 0}}
+	st, en, _, err := s.getSectionDvOffsets(0, SectionInvertedTextIndex)
+	vAssert(err == nil, "err")
+	vAssert(vAnd(st == a, en == b), "offsets")
+	st, en, _, err = s.getSectionDvOffsets(1, SectionInvertedTextIndex)
+	vAssert(err == nil && st == fieldNotUninverted && en == fieldNotUninverted, "no-section")
+	vObserve("start", st)
+}
